@@ -1,2 +1,72 @@
-From ZC Require Import Model.Base Model.Cache Model.Ingest.
-Example C05_placeholder : True. Proof. exact I. Qed.
+(* C05 - record cache: all lookup paths agree with an RFC 6762 section 10 model. Statements only.
+   Model.Cache / Model.Ingest mirror _cache.py / record_manager.py / the engine purge (tied to the
+   code by the correspondence check on identical histories); identity and lifetime predicates are
+   regenerated from _dns.py. Spec.CacheSpec: flat view, invariant, histories. *)
+From ZC Require Import Model.Base Model.PyRec Model.Dict Model.Re Model.Cache Model.Ingest Gen.Const Gen.DnsPure
+  Spec.CacheSpec Proofs.C20_identity Proofs.C05_cache.
+From Coq Require Import Permutation.
+
+(* Every history of response datagrams and purges - any records, any instants - runs without KeyError
+   and ends in a cache whose two indexes are well-formed and mirror each other (same live objects). *)
+Theorem C05_refines : forall h, exists c, hrun empty_cache h = Ok c /\ Inv c.
+Proof. exact history_inv. Qed.
+Print Assumptions C05_refines.
+
+(* Under the invariant every lookup path is a filter of one flat list of records: by name, by
+   name/type/class (all, and the newest one), by exact record, by SRV host, list of names. *)
+Theorem C05_lookups : forall c, Inv c ->
+  (forall n, entries_with_name c n = filter (fun r => text_eqb (rkey r) (lower n)) (flat c)) /\
+  (forall n t cl, async_all_by_details c n t cl
+                  = filter (fun r => text_eqb (rkey r) (lower n) && details_match t cl r) (flat c)) /\
+  (forall n t cl, get_by_details c n t cl = hd_error (rev (get_all_by_details c n t cl))) /\
+  (forall r, async_get_unique c r = find (fun x => gen_eq x r) (flat c)) /\
+  (forall r, p_kind r <> KQuestion -> cache_get c r = find (fun x => gen_eq x r) (flat c)) /\
+  (forall s, Permutation (entries_with_server c s)
+                         (filter (fun r => is_service r && text_eqb (skey r) (lower s)) (flat c))) /\
+  (forall k, In k (names c) <-> exists r, In r (flat c) /\ rkey r = k).
+Proof.
+  intros c H. repeat split.
+  - intro n; apply entries_with_name_flat; exact H.
+  - intros n t cl; apply all_by_details_flat; exact H.
+  - intros n t cl; apply get_by_details_last.
+  - intro r; apply get_unique_flat; exact H.
+  - intros r K; apply cache_get_flat; assumption.
+  - intro s; apply entries_with_server_flat; exact H.
+  - apply names_flat; exact H.
+  - apply names_flat; exact H.
+Qed.
+Print Assumptions C05_lookups.
+
+(* A purge removes exactly the records whose TTL has fully elapsed (created + 1000 ttl <= now, the
+   predicate regenerated from DNSRecord.is_expired), reports each exactly once, keeps all others. *)
+Theorem C05_purge : forall now c, Inv c ->
+  exists c', pg_final (purge now c) = Ok c' /\
+    pg_expired (purge now c) = filter (fun r => DNSRecord_is_expired r now) (flat c) /\
+    flat c' = filter (fun r => negb (DNSRecord_is_expired r now)) (flat c) /\
+    NoDup (pg_expired (purge now c)) /\
+    (forall r, DNSRecord_is_expired r now = true <-> expires_at r <= now).
+Proof.
+  intros now c H. destruct (purge_exact now c H) as (c' & A & B & C & D).
+  exists c'. repeat split; try assumption; apply expired_iff.
+Qed.
+Print Assumptions C05_purge.
+
+(* A cached record is never purged before created + 1000 ttl of its CURRENT lifetime - which a refresh
+   sets to (arrival time, received ttl) (C06_cached) - so a refreshed record outlives its old deadline. *)
+Theorem C05_no_early : forall now c r, Inv c -> In r (flat c) -> now < expires_at r ->
+  exists c', pg_final (purge now c) = Ok c' /\ In r (flat c').
+Proof. exact no_early_purge. Qed.
+Print Assumptions C05_no_early.
+
+(* non-vacuity: the history that exposed the key/value defect of the pinned tree - the same TXT record
+   twice in one datagram, refreshed later - keeps the record alive past its first deadline *)
+Example C05_example :
+  let txt ttl now := {| p_kind := KText; p_name := [120;46]; p_type_ := 16; p_class_ := 1; p_ttl := ttl;
+                        p_created := now; p_address := []; p_scope_id := None; p_cpu := []; p_os := [];
+                        p_alias := []; p_text := [1;97]; p_priority := 0; p_weight := 0; p_port := 0;
+                        p_server := []; p_next_name := []; p_rdtypes := [] |} in
+  match hrun empty_cache [HResp 1000 [txt 20 1000; txt 20 1000]; HResp 16000 [txt 120 16000]; HPurge 31000] with
+  | Ok c => map lifetime (flat c) = [(16000, 120)]
+  | Raise _ => False
+  end.
+Proof. vm_compute. reflexivity. Qed.
